@@ -526,6 +526,7 @@ func execC24(t *testing.T, c *sim.Case) *sim.Result {
 		}
 		o := &c24Oracle{w: w, state: map[uint64]manifest.RegionState{}, gone: map[uint64]bool{}}
 		o.prev = w.Catalog()
+		defer func() { res.Nontrivial = o.applied > 0 }()
 		res.Trace.Add("initial %s wiring=%d", catalogString(o.prev), w.wiring)
 		o.checkEvents(stepInfo{op: "start"})
 		nextID := uint64(100)
@@ -654,7 +655,6 @@ func execC24(t *testing.T, c *sim.Case) *sim.Result {
 			}
 			o.check(info)
 		}
-		res.Nontrivial = o.applied > 0
 	})
 	return res
 }
@@ -742,5 +742,14 @@ func (o *c24Oracle) restart(info stepInfo) bool {
 	// Invariants against the pre-restart catalog, then carry on from what is there.
 	o.prev = before
 	o.check(stepInfo{op: "restart", sig: map[string]string{"wiring": wiring}})
+	if !same || tickErr != "" {
+		// The restarted store re-applied (or refused to re-apply) old admin
+		// entries: peers whose replay failed never advance again (they stay
+		// without a leader), children re-created by a replayed split replay their
+		// own logs in later ticks. Whatever the rest of the run showed would be a
+		// consequence of this restart, so the run ends here.
+		res.Probes["restart_replay_trouble"]++
+		return false
+	}
 	return true
 }
